@@ -546,8 +546,9 @@ func StepQ(s *State, m Mem, q Quirks) Care {
 		case "BRA":
 			t = true
 		}
+		disp := c.op(1) // the displacement byte is fetched whether or not the branch is taken
 		if t {
-			next = s.PC + 2 + uint16(int16(int8(c.op(1))))
+			next = s.PC + 2 + uint16(int16(int8(disp)))
 		}
 	case "BRL":
 		next = s.PC + 3 + c.op16()
@@ -660,7 +661,9 @@ func StepQ(s *State, m Mem, q Quirks) Care {
 		if s.C != 0xFFFF {
 			next = s.PC
 		}
-	case "NOP", "WDM":
+	case "WDM":
+		_ = c.op(1) // the reserved opcode has a one-byte operand, which the processor fetches
+	case "NOP":
 	case "WAI":
 		c.care.Loose = true
 	case "STP":
